@@ -27,6 +27,11 @@ import (
 // (unknown / undecodable filters, no-broadcast flag, colliding (LTime,id)).
 // After every delivery the check looks at the three observable effects:
 // application channel, ack packet to the origin, growth of the query queue.
+// A third source are the receiver's OWN queries (its public Query API, filters
+// that may or may not select the receiver itself): the local copy goes through
+// the same rules, and the echo of the own query coming back from the network
+// is a repeat.  The receiver's tags may be replaced through SetTags in the
+// middle of a case; filters are then judged against the new tags.
 //
 // Zero-length filters are not generated here (known defect D1, owned by C09).
 
@@ -40,9 +45,9 @@ type c08Filter struct {
 }
 
 type c08Query struct {
-	Via         int         `json:"via"` // 0 sender's public Query API, 1 hand-built message
+	Via         int         `json:"via"` // 0 sender's public Query API, 1 hand-built message, 2 the receiver's own public Query API
 	LTime       int         `json:"lt"`  // hand-built only
-	ID          int         `json:"id"`  // hand-built only (small pool => collisions)
+	ID          int         `json:"id"`  // hand-built only (small pool => collisions; 0 and 2^32-1 included)
 	Name        int         `json:"name"`
 	Payload     string      `json:"payload"`
 	Filters     []c08Filter `json:"filters"`
@@ -60,6 +65,10 @@ type c08Case struct {
 	// (default 512): small values make hand-built Lamport times collide on
 	// buffer slots and fall out of the retention window
 	QueryBuf int `json:"query_buf,omitempty"`
+	// Tags2 / TagsAt: before delivery number TagsAt (>= 1) the receiver's tags are
+	// replaced by Tags2 through SetTags (0 = never)
+	Tags2  map[string]string `json:"tags2,omitempty"`
+	TagsAt int               `json:"tags_at,omitempty"`
 }
 
 var (
@@ -108,16 +117,16 @@ func genC08(t *rapid.T) c08Case {
 			c.Tags[tn] = rapid.SampledFrom(c08TagValues).Draw(t, "val-"+tn)
 		}
 	}
-	c.QueryBuf = rapid.SampledFrom([]int{0, 0, 0, 4, 8}).Draw(t, "querybuf")
+	c.QueryBuf = rapid.SampledFrom([]int{0, 0, 0, 0, 4, 8, 1, 3}).Draw(t, "querybuf")
 	nq := rapid.IntRange(1, 5).Draw(t, "nq")
 	if c.QueryBuf != 0 {
 		nq = rapid.IntRange(2, 7).Draw(t, "nq-small-buffer")
 	}
 	for i := 0; i < nq; i++ {
 		q := c08Query{
-			Via:     rapid.SampledFrom([]int{0, 1, 1}).Draw(t, "via"),
+			Via:     rapid.SampledFrom([]int{0, 1, 1, 1, 2}).Draw(t, "via"),
 			LTime:   rapid.IntRange(0, 40).Draw(t, "lt"),
-			ID:      rapid.IntRange(1, 4).Draw(t, "id"),
+			ID:      rapid.SampledFrom([]int{1, 2, 3, 4, 0, 0, 4294967295}).Draw(t, "id"),
 			Name:    rapid.OneOf(rapid.IntRange(0, 1), rapid.IntRange(0, len(c08QueryNames)-1)).Draw(t, "name"),
 			Payload: rapid.SampledFrom([]string{"", "p", "alpha", "someone"}).Draw(t, "payload"),
 			Ack:     rapid.Bool().Draw(t, "ack"),
@@ -138,7 +147,7 @@ func genC08(t *rapid.T) c08Case {
 			}
 			switch f.Kind {
 			case 0:
-				if q.Via == 0 && haveNodes { // the public API has one node list
+				if q.Via != 1 && haveNodes { // the public API has one node list
 					continue
 				}
 				haveNodes = true
@@ -148,7 +157,7 @@ func genC08(t *rapid.T) c08Case {
 				}
 			case 1:
 				f.Tag = rapid.IntRange(0, len(c08TagNames)-1).Draw(t, "tag")
-				if q.Via == 0 && usedTags[f.Tag] { // FilterTags is a map
+				if q.Via != 1 && usedTags[f.Tag] { // FilterTags is a map
 					continue
 				}
 				usedTags[f.Tag] = true
@@ -174,6 +183,21 @@ func genC08(t *rapid.T) c08Case {
 	for i := 0; i+1 < len(c.Deliveries); i++ {
 		if rapid.IntRange(0, 3).Draw(t, "swap") == 0 {
 			c.Deliveries[i], c.Deliveries[i+1] = c.Deliveries[i+1], c.Deliveries[i]
+		}
+	}
+	if rapid.IntRange(0, 2).Draw(t, "retag?") == 0 {
+		c.TagsAt = rapid.IntRange(1, len(c.Deliveries)).Draw(t, "tags_at")
+		c.Tags2 = map[string]string{}
+		for _, tn := range c08TagNames[:3] {
+			switch rapid.IntRange(0, 3).Draw(t, "retag-"+tn) {
+			case 0: // tag removed (or still absent)
+			case 1: // unchanged
+				if v, ok := c.Tags[tn]; ok {
+					c.Tags2[tn] = v
+				}
+			default:
+				c.Tags2[tn] = rapid.SampledFrom(c08TagValues).Draw(t, "val2-"+tn)
+			}
 		}
 	}
 	return c
@@ -232,8 +256,32 @@ func bodyC08(c c08Case, x *vkit.Ctx) {
 	// ---- build the wire form of every query
 	var sender *node.Node
 	wires := make([][]byte, len(c.Queries))
+	apiParams := func(q c08Query) *serf.QueryParam {
+		p := &serf.QueryParam{RequestAck: q.Ack, RelayFactor: uint8(q.Relay), Timeout: 50 * time.Millisecond}
+		for _, f := range q.Filters {
+			switch f.Kind {
+			case 0:
+				if p.FilterNodes == nil {
+					p.FilterNodes = []string{}
+				}
+				for _, ni := range f.Names {
+					p.FilterNodes = append(p.FilterNodes, pool[ni%len(pool)])
+				}
+			case 1:
+				if p.FilterTags == nil {
+					p.FilterTags = map[string]string{}
+				}
+				p.FilterTags[c08TagNames[f.Tag%len(c08TagNames)]] = f.Expr
+			}
+		}
+		return p
+	}
+	ownRefused := make([]bool, len(c.Queries))
 	for qi, q := range c.Queries {
 		qname := c08QueryNames[q.Name%len(c08QueryNames)]
+		if q.Via == 2 {
+			continue // issued by the receiver itself at its first delivery
+		}
 		if q.Via == 0 {
 			if sender == nil {
 				sender = mkNode(x, simnet.New(2), node.Opts{Name: "sender", Quiet: true})
@@ -242,23 +290,7 @@ func bodyC08(c c08Case, x *vkit.Ctx) {
 				}
 				defer sender.Stop()
 			}
-			p := &serf.QueryParam{RequestAck: q.Ack, RelayFactor: uint8(q.Relay), Timeout: 50 * time.Millisecond}
-			for _, f := range q.Filters {
-				switch f.Kind {
-				case 0:
-					if p.FilterNodes == nil {
-						p.FilterNodes = []string{}
-					}
-					for _, ni := range f.Names {
-						p.FilterNodes = append(p.FilterNodes, pool[ni%len(pool)])
-					}
-				case 1:
-					if p.FilterTags == nil {
-						p.FilterTags = map[string]string{}
-					}
-					p.FilterTags[c08TagNames[f.Tag%len(c08TagNames)]] = f.Expr
-				}
-			}
+			p := apiParams(q)
 			_, before, _ := sender.Serf.VerifQueued()
 			if _, err := sender.Serf.Query(qname, []byte(q.Payload), p); err != nil {
 				x.Label("sender-refused")
@@ -321,12 +353,60 @@ func bodyC08(c c08Case, x *vkit.Ctx) {
 	}
 	seen := map[key]bool{}
 	nontrivial := false
+	tags := c.Tags
 	for di, d := range c.Deliveries {
+		if c.TagsAt > 0 && di+1 == c.TagsAt && c.Tags2 != nil {
+			t2 := map[string]string{}
+			for k, v := range c.Tags2 {
+				t2[k] = v
+			}
+			if err := recv.Serf.SetTags(t2); err != nil {
+				x.Inconclusive("SetTags failed: " + err.Error())
+				return
+			}
+			tags = c.Tags2
+			x.Label("tags-replaced-mid-case")
+		}
 		qi := d % len(c.Queries)
-		wire := wires[qi]
-		if wire == nil {
+		q := c.Queries[qi]
+		own := q.Via == 2 && wires[qi] == nil // the receiver issues this query itself now
+		if own && ownRefused[qi] {
 			continue
 		}
+		wire := wires[qi]
+		if wire == nil && !own {
+			continue
+		}
+		var qclock serf.LamportTime
+		if c.QueryBuf > 0 {
+			_, _, qclock = recv.Serf.VerifClocks()
+		}
+
+		// ---- the delivery itself
+		rnet.Packets()
+		_, qBefore, _ := recv.Serf.VerifQueued()
+		if own {
+			if _, err := recv.Serf.Query(c08QueryNames[q.Name%len(c08QueryNames)], []byte(q.Payload), apiParams(q)); err != nil {
+				x.Label("own-query-refused")
+				ownRefused[qi] = true
+				continue
+			}
+		} else {
+			recv.Delegate.NotifyMsg(wire)
+		}
+		_, qAfter, _ := recv.Serf.VerifQueued()
+		pk := node.UserMsgs(rnet.Packets()) // acks are sent synchronously inside NotifyMsg / Query
+		if own {
+			fresh := newEntries(qBefore, qAfter)
+			if len(fresh) != 1 {
+				x.Inconclusive("the receiver's own query did not add exactly one entry to its query queue")
+				return
+			}
+			wire = fresh[0]
+			wires[qi] = wire // later deliveries of this query are its echo from the network
+			x.Label("own-query")
+		}
+
 		// the oracle's view of the query comes from the wire bytes
 		var m serf.VerifMessageQuery
 		if err := serf.VerifDecodeMessage(wire[1:], &m); err != nil {
@@ -339,7 +419,7 @@ func bodyC08(c c08Case, x *vkit.Ctx) {
 				x.Inconclusive("zero-length filter on the wire (excluded input)")
 				return
 			}
-			ok, class := c08Verdict(f, recvName, c.Tags)
+			ok, class := c08Verdict(f, recvName, tags)
 			x.Label("filter:" + class)
 			if class != "nodes" && class != "tag-literal" {
 				interesting = true
@@ -354,13 +434,18 @@ func bodyC08(c c08Case, x *vkit.Ctx) {
 		k := key{m.LTime, m.ID}
 		first := !seen[k]
 		seen[k] = true
+		if !own && q.Via == 2 {
+			x.Label("own-query-echo")
+		}
+		if m.ID == 0 || m.ID == 1<<32-1 {
+			x.Label("id-boundary-value")
+		}
 		// retention window of the receiver (matters with a small buffer): a query
 		// older than the window may be dropped at first sight; a repeat is never
-		// delivered again, inside or outside the window
+		// delivered again, inside or outside the window.  An own query carries the
+		// clock value itself and is never outside the window.
 		tooOld := false
-		var qclock serf.LamportTime
-		if c.QueryBuf > 0 {
-			_, _, qclock = recv.Serf.VerifClocks()
+		if c.QueryBuf > 0 && !own {
 			after := qclock
 			if m.LTime+1 > after {
 				after = m.LTime + 1
@@ -394,12 +479,6 @@ func bodyC08(c c08Case, x *vkit.Ctx) {
 			x.Label("no-broadcast")
 		}
 
-		rnet.Packets()
-		_, qBefore, _ := recv.Serf.VerifQueued()
-		recv.Delegate.NotifyMsg(wire)
-		_, qAfter, _ := recv.Serf.VerifQueued()
-		pk := node.UserMsgs(rnet.Packets()) // acks are sent synchronously inside NotifyMsg
-
 		// barrier query: arrives on the application channel after whatever the delivery produced
 		bname := fmt.Sprintf("barrier-%d", di)
 		blt := uint64(100 + di)
@@ -425,8 +504,12 @@ func bodyC08(c c08Case, x *vkit.Ctx) {
 				got = append(got, q)
 			}
 		}
-		desc := fmt.Sprintf("delivery %d of query %d (name %q, LTime %d, id %d, flags %d, %d filters: %d match, %d do not; first=%v) to %q tags %v",
-			di, qi, m.Name, m.LTime, m.ID, m.Flags, len(m.Filters), hits, misses, first, recvName, c.Tags)
+		how := "delivery"
+		if own {
+			how = "issue by the receiver itself"
+		}
+		desc := fmt.Sprintf("%s %d of query %d (name %q, LTime %d, id %d, flags %d, %d filters: %d match, %d do not; first=%v) to %q tags %v",
+			how, di, qi, m.Name, m.LTime, m.ID, m.Flags, len(m.Filters), hits, misses, first, recvName, tags)
 		switch {
 		case len(got) > 0 && internal:
 			x.Violationf("internal-query-to-application", "%s: the application received a query with the internal prefix", desc)
